@@ -14,6 +14,10 @@ Plus skeletons of <= 2 slots (thorough: 3 over a reduced alphabet) containing at
 fill-array-data whose 31t offset addresses NO payload: the middle of the instruction itself, the middle of a payload
 (+2 and +4 bytes), an ordinary instruction (the final return-void), the first byte behind the code, end + 4, and 2 bytes
 before offset 0 -- x the 4 layouts x {no orphan, orphan packed payload before, orphan array payload after}.
+Plus layout "mid" (slot 0, goto/16 over the payload tables, slot 1 ...) and the set_instructions() HISTORY family
+(analyse, ONE edit of the instruction list -- prepend 1 or 2 nops, nop behind the final return, list replaced by itself
+-- through EncodedMethod.set_instructions(), NEW MethodAnalysis judged against the reference decoded from the edited
+bytes; keys end in ":after:set_instructions").
 Plus every method of the shipped DEX files (quick: classes.dex).
 Oracle (ref/cfg.judge_c40 and judge_xrefs below), S = offsets EncodedMethod.get_instructions_idx() yields:
   every basic-block start is in S, every block end is in S or the end of the code;
@@ -72,6 +76,14 @@ def plans(ctx):
     top = 3 if ctx.thorough else 2
     p = [{"id": "layouts-n%d" % n, "n": n, "kinds": "CVNFGIKSA", "layouts": M.LAYOUTS, "orphans": ORPHANS, "shared": True}
          for n in range(0, top + 1)]
+    # payload tables in the middle of the code (jumped over by a goto/16)
+    for n in range(1, top + 1):
+        p.append({"id": "mid-n%d" % n, "n": n, "kinds": "CVNFGIKSA" if n < 3 else "VGIKSA", "layouts": ("mid",),
+                  "orphans": ORPHANS_BOGUS, "shared": True})
+    # history: analyse, ONE edit through set_instructions(), analyse again (keys end in :after:set_instructions)
+    for n in (1, 2):
+        p.append({"id": "hist-n%d" % n, "n": n, "kinds": "GIKSA", "layouts": ("aligned", "first", "mid"),
+                  "history": M.EDITS})
     # 31t offsets at which NO payload starts (inside an instruction / a payload, at an ordinary instruction, outside the code)
     for n in (1, 2):
         p.append({"id": "bogus-n%d" % n, "n": n, "kinds": "VGKSA", "bogus": M.BOGUS, "require_bogus": True,
